@@ -127,22 +127,59 @@ func Gen(run *vlib.Run, seed uint64, tier string) {
 
 // ---- small helpers shared by the case files ----
 
+// runesSx prints a rune list; runs of at least 8 equal runes are written as
+// (rep n r) so that large cases stay short enough for replay files.
 func runesSx(rr []rune) vlib.Sx {
-	l := make(vlib.List, len(rr))
-	for i, r := range rr {
-		l[i] = vlib.Int(int(r))
+	l := make(vlib.List, 0, len(rr))
+	for i := 0; i < len(rr); {
+		j := i
+		for j < len(rr) && rr[j] == rr[i] {
+			j++
+		}
+		if j-i >= 8 {
+			l = append(l, vlib.L(vlib.Atom("rep"), vlib.Int(j-i), vlib.Int(int(rr[i]))))
+		} else {
+			for k := i; k < j; k++ {
+				l = append(l, vlib.Int(int(rr[k])))
+			}
+		}
+		i = j
 	}
 	return l
 }
 
 func asRunes(x vlib.Sx) ([]rune, error) {
-	v, err := vlib.AsInts(x)
+	l, err := vlib.AsList(x)
 	if err != nil {
 		return nil, err
 	}
-	rr := make([]rune, len(v))
-	for i, a := range v {
-		rr[i] = rune(a)
+	var rr []rune
+	for _, e := range l {
+		if sub, ok := e.(vlib.List); ok {
+			if len(sub) != 3 {
+				return nil, fmt.Errorf("bad rune run")
+			}
+			if a, _ := vlib.AsAtom(sub[0]); a != "rep" {
+				return nil, fmt.Errorf("bad rune run")
+			}
+			n, err := vlib.AsInt(sub[1])
+			if err != nil || n < 0 || n > 1<<20 {
+				return nil, fmt.Errorf("bad rune run length")
+			}
+			v, err := vlib.AsInt(sub[2])
+			if err != nil {
+				return nil, err
+			}
+			for i := 0; i < n; i++ {
+				rr = append(rr, rune(v))
+			}
+			continue
+		}
+		v, err := vlib.AsInt(e)
+		if err != nil {
+			return nil, err
+		}
+		rr = append(rr, rune(v))
 	}
 	return rr, nil
 }
